@@ -74,7 +74,28 @@ Convert(k, k2) == /\ Bound /\ k # k2
                   /\ UNCHANGED <<params, proof, nid>>
                   /\ Step([cmd |-> "convert-to-raw", key |-> k, to |-> k2], YN(keys[k].kind = "keys"), "empty")
 
+(* ---- the remaining commands: they read a keys file or compile a circuit and write an artefact; none of them changes the slots ---- *)
+\* export-vk / export-solidity --keys-file k: succeed iff the keys file loads
+Export_(k, what) == /\ Bound /\ what \in {"export-vk", "export-solidity", "export-solidity-stdout"}
+                    /\ UNCHANGED <<keys, params, proof, nid>>
+                    /\ Step([cmd |-> what, key |-> k], YN(keys[k].kind = "keys"),
+                            IF what = "export-solidity-stdout" /\ keys[k].kind = "keys" THEN "solidity" ELSE "empty")
+\* r1cs --mode m --tree-depth d: succeeds iff the mode is known and the circuit exists (deletion deeper than 31 is refused)
+R1cs(m, depth) == /\ Bound /\ depth \in {2, 31, 32, 40}
+                  /\ UNCHANGED <<keys, params, proof, nid>>
+                  /\ Step([cmd |-> "r1cs", mode |-> m, depth |-> depth], YN(m \in Modes /\ (m = "deletion" => depth <= 31)), "empty")
+\* import-setup --mode m --pk P --vk V: needs readable key files and a known mode
+ImportSetup(k, m, have) == /\ Bound /\ have \in BOOLEAN
+                           /\ UNCHANGED <<params, proof>> /\ nid' = nid + 1
+                           /\ IF m \in Modes /\ have THEN keys' = [keys EXCEPT ![k] = [kind |-> "keys", mode |-> m, dim |-> "A", id |-> nid + 1]] ELSE UNCHANGED keys
+                           /\ Step([cmd |-> "import-setup", key |-> k, mode |-> m, have |-> have], YN(m \in Modes /\ have), "empty")
+ExtractCircuit == /\ Bound /\ UNCHANGED <<keys, params, proof, nid>> /\ Step([cmd |-> "extract-circuit"], "yes", "empty")
+
 Next == \/ \E k \in KeyFiles, m \in Modes \cup BadModes, d \in Dims : Setup(k, m, d)
+        \/ \E k \in KeyFiles, what \in {"export-vk", "export-solidity", "export-solidity-stdout"} : Export_(k, what)
+        \/ \E m \in Modes \cup BadModes, depth \in {2, 31, 32, 40} : R1cs(m, depth)
+        \/ \E k \in KeyFiles, m \in Modes \cup BadModes, have \in BOOLEAN : ImportSetup(k, m, have)
+        \/ ExtractCircuit
         \/ \E k \in KeyFiles, how \in {"garbage", "truncated"} : Damage(k, how)
         \/ \E k \in KeyFiles : Remove(k)
         \/ \E m \in Modes \cup BadModes, d \in Dims, v \in BOOLEAN : GenParams(m, d, v)
@@ -86,7 +107,7 @@ Spec == Init /\ [][Next]_vars
 
 \* a success status is never reported for a wrong result
 TruthfulExit == \A i \in 1..Len(hist) :
-   /\ (hist[i].cmd \in {"setup", "gen-test-params", "prove", "verify"} /\ hist[i].mode \in BadModes => hist[i].exit0 = "no")
+   /\ (hist[i].cmd \in {"setup", "gen-test-params", "prove", "verify", "r1cs", "import-setup"} /\ hist[i].mode \in BadModes => hist[i].exit0 = "no")
    /\ (hist[i].cmd = "prove" /\ hist[i].exit0 # "any" => (hist[i].exit0 = "yes" <=> hist[i].stdout = "proof"))
 Export == Len(hist) = MaxSteps => PrintT("TRACE " \o ToJson(hist))
 NoHistView == <<keys, params, proof>>
